@@ -334,8 +334,11 @@ ddpbool ddp_string_equal(ddpstring *str1, ddpstring *str2) {
 	if (str1 == str2) {
 		return true;
 	}
-	if (ddp_strlen(str1) != ddp_strlen(str2)) {
+	size_t len = ddp_strlen(str1);
+	if (len != (size_t)ddp_strlen(str2)) {
 		return false; // if the length is different, it's a quick false return
 	}
-	return memcmp(str1->str, str2->str, str1->cap) == 0;
+	// the empty Text is {NULL, 0} or an allocated "\0" (C code that builds a ddpstring by hand):
+	// compare the bytes of the texts, not the capacity of the first one
+	return len == 0 || memcmp(str1->str, str2->str, len) == 0;
 }
